@@ -150,7 +150,7 @@ OutputsOf(rs, id, b) ==
     LET ids == SortRids({r \in DOMAIN rs : r[1] = id /\ r[2] = b /\ rs[r].out # ""})
     IN [i \in DOMAIN ids |-> rs[ids[i]].out]
 
-RespCb(id, b, outs, thr) == [kind |-> "resp", id |-> id, batch |-> b, outs |-> outs, err |-> Len(outs) < thr]
+RespCb(id, b, outs, thr) == [kind |-> "resp", id |-> id, outs |-> outs, err |-> Len(outs) < thr]
 StateCb(id, cause)       == [kind |-> "state", id |-> id, cause |-> cause]
 
 -----------------------------------------------------------------------------
